@@ -3,11 +3,12 @@ import random
 random.seed()
 
 from pysnark.runtime import LinComb
+from pysnark.boolean import LinCombBool
 
 class PackBool:
     def random(self): return random.randrange(0,2)
     def bitlen(self): return 1
-    def pack(self, val): return [val] if isinstance(val,LinComb) else [int(bool(val))]
+    def pack(self, val): return [val] if isinstance(val,(LinComb,LinCombBool)) else [int(bool(val))] # a secret boolean is usually a LinCombBool
     def unpack(self, bits, pos): return bits[pos]
 
 class PackIntMod:
